@@ -2,6 +2,7 @@
 mod c07;
 mod c08;
 mod c09;
+mod c11;
 mod c12;
 mod c09_stacks;
 mod rl;
@@ -14,6 +15,7 @@ fn main() {
         "BENCH07" => { c07::bench(); 0 }
         "C08" => c08::run(&args),
         "C09" => c09::run(&args),
+        "C11" => c11::run(&args),
         "C12" => c12::run(&args),
         p => {
             eprintln!("h_filt: unknown property {}", p);
